@@ -539,4 +539,304 @@ theorem rtd_allBlocks_doc (ds : List (List Tok × List Tok)) (h : docOK ds = tru
       · simp only; rw [e1, ih h.2 E1 hE1]; rfl
       · simp only; rw [e2, ih h.2 E2 hE2]; rfl
 
+/-! ### from the spelled document to the lexer's tokens -/
+
+/-- element-wise relation of two lists of the same length (core Lean has no `Forall₂`) -/
+inductive All2 {β γ : Type} (R : β → γ → Prop) : List β → List γ → Prop where
+  | nil : All2 R [] []
+  | cons {a b l₁ l₂} : R a b → All2 R l₁ l₂ → All2 R (a :: l₁) (b :: l₂)
+
+theorem rtd_spells_kinds {ts spec : List Tok} (h : Spells ts spec) : ts.map (·.kind) = spec.map (·.kind) := by
+  have := congrArg (List.map Prod.fst) h
+  simpa [List.map_map, Tok.kt, Function.comp_def] using this
+
+theorem rtd_blockShape_transfer {ts spec : List Tok} (h : Spells ts spec) : blockShape ts = blockShape spec := by
+  simp only [blockShape, singleShape, stepShape, rtd_spells_kinds h]
+
+theorem rtd_sepOK_transfer {ts spec : List Tok} (h : Spells ts spec) : sepOK ts = sepOK spec := by
+  simp only [sepOK, rtd_spells_kinds h]
+
+theorem rtd_tailOK_transfer {ts spec : List Tok} (h : Spells ts spec) : tailOK ts = tailOK spec := by
+  simp only [tailOK, rtd_spells_kinds h]
+
+/-- tokens that spell a document are a document: the same blocks and separators, token for token -/
+theorem rtd_spells_doc {β : Type} (f : β → List Tok × List Tok) (ds : List β) :
+    ∀ ts, Spells ts (docToks (ds.map f)) →
+      ∃ tds, ts = docToks tds ∧
+        All2 (fun (td : List Tok × List Tok) d => Spells td.1 (f d).1 ∧ Spells td.2 (f d).2) tds ds := by
+  induction ds with
+  | nil =>
+    intro ts h
+    simp only [List.map_nil, docToks] at h
+    exact ⟨[], by rw [h.nil_inv]; rfl, All2.nil⟩
+  | cons d r ih =>
+    intro ts h
+    simp only [List.map_cons, docToks] at h
+    obtain ⟨t12, t3, rfl, h12, h3⟩ := h.append_inv
+    obtain ⟨t1, t2, rfl, h1, h2⟩ := h12.append_inv
+    obtain ⟨tds, rfl, hF⟩ := ih t3 h3
+    exact ⟨(t1, t2) :: tds, rfl, All2.cons ⟨h1, h2⟩ hF⟩
+
+theorem rtd_docOK_transfer {β : Type} (f : β → List Tok × List Tok) (tds : List (List Tok × List Tok)) (ds : List β)
+    (h : All2 (fun (td : List Tok × List Tok) d => Spells td.1 (f d).1 ∧ Spells td.2 (f d).2) tds ds) :
+    docOK tds = docOK (ds.map f) := by
+  induction h with
+  | nil => rfl
+  | cons hd htl ih =>
+    cases htl with
+    | nil => simp only [List.map_cons, List.map_nil, docOK, rtd_blockShape_transfer hd.1, rtd_tailOK_transfer hd.2]
+    | cons hd2 htl2 =>
+      simp only [List.map_cons, docOK, rtd_blockShape_transfer hd.1, rtd_sepOK_transfer hd.2]
+      simp only [List.map_cons] at ih
+      rw [ih]
+
+/-- leading blank lines, on kinds -/
+def blankLinesOK (pre : List Tok) : Bool :=
+  (pre.map (·.kind)).all isEmptyTok && (pre.map (·.kind)).getLast?.all (· == .newline)
+
+theorem rtd_blankLinesOK_facts (pre : List Tok) (h : blankLinesOK pre = true) : BlankLines pre := by
+  simp only [blankLinesOK, Bool.and_eq_true] at h
+  refine ⟨rtd_allBlank_of_map h.1, ?_⟩
+  intro t ht
+  have h2 := h.2
+  rw [List.getLast?_map, ht] at h2
+  simpa using h2
+
+theorem rtd_blankLinesOK_transfer {ts spec : List Tok} (h : Spells ts spec) : blankLinesOK ts = blankLinesOK spec := by
+  simp only [blankLinesOK, rtd_spells_kinds h]
+
+/-- every block of a document cut out of a run is a run -/
+theorem rtd_doc_runs (tds : List (List Tok × List Tok)) : ∀ (off : Nat) (A : List Tok), RunAt off (A ++ docToks tds) →
+    ∀ td ∈ tds, RunAt (baseOff td.1) td.1 := by
+  induction tds with
+  | nil => intro off A _ td h; cases h
+  | cons d r ih =>
+    intro off A h td hm
+    simp only [List.mem_cons] at hm
+    rcases hm with rfl | hm
+    · simp only [docToks, List.append_assoc] at h
+      rw [runAt_append, runAt_append] at h
+      exact h.2.1.base
+    · have e : A ++ docToks (d :: r) = (A ++ d.1 ++ d.2) ++ docToks r := by simp [docToks]
+      rw [e] at h
+      exact ih off _ h td hm
+
+/-! ### the events of a document -/
+
+/-- the blocks of a recipe text: a step (one or more lines), a section line, a `>>` metadata line -/
+inductive DocItem where
+  | step (segs : List SegX)
+  | sectionLine (name : Option (List Tok)) (p : SPad)
+  | metaLine (key value : List Tok) (p : MPad)
+
+def DocItem.spell : DocItem → List Tok
+  | .step segs => segs.flatMap SegX.spell
+  | .sectionLine name p => spellSection name p
+  | .metaLine k v p => spellMeta k v p
+
+/-- side conditions of a block: those of its layer; a step additionally has the shape of a
+    multi-line block (no blank line inside, no line starting with `>>` or `=`) -/
+def DocItem.ok (cs : CharSpec) (ext : Ext) : DocItem → Bool
+  | .step segs =>
+    segsXOK cs ext segs && stepBlockOK (segs.flatMap SegX.spell) && stepShape (segs.flatMap SegX.spell)
+  | .sectionLine name p => sectionOK cs name p
+  | .metaLine k v p => metaOK cs k v p
+
+/-- the events a block must produce -/
+def DocItemEvs (cs : CharSpec) : DocItem → List (Ev α) → Prop
+  | .step segs, evs => ∃ e, evs = [.start .step] ++ e ++ [.stop .step] ∧ SegsXEvs cs segs e
+  | .sectionLine name _, evs => ∃ ev, evs = [ev] ∧ SectionMatches cs name ev
+  | .metaLine k v _, evs => ∃ ev, evs = [ev] ∧ MetaMatches cs k v ev
+
+theorem rtd_pad_noNL {cs : CharSpec} {l : List Tok} (h : padOK cs l = true) : NoNL l := by
+  intro t ht hk
+  rcases padOK_padT h t ht with h' | h' <;> rw [hk] at h' <;> cases h'
+
+theorem rtd_leaf_noNL {cs : CharSpec} {allowed : TK → Bool} {l : List Tok} (h : leafOK cs allowed l = true) : NoNL l := by
+  intro t ht hk
+  have := (leafOK_facts h).toks t ht
+  rw [Bool.or_eq_true] at this
+  rcases this with h' | h'
+  · have := (isAtomTok_facts h').2.1
+    simp [plainKind, hk] at this
+  · have := (isSpTok_facts h').1
+    rw [hk] at this; cases this
+
+theorem rtd_noNL_append {a b : List Tok} (ha : NoNL a) (hb : NoNL b) : NoNL (a ++ b) := by
+  intro t ht
+  rcases List.mem_append.1 ht with h | h
+  · exact ha t h
+  · exact hb t h
+
+theorem rtd_singleShape_intro (t0 : Tok) (tl : List Tok) (hm : kIsMarker t0.kind = true) (hn : NoNL (t0 :: tl)) :
+    singleShape (t0 :: tl) = true := by
+  have h2 : ((t0 :: tl).map (·.kind)).all (· != .newline) = true := by
+    rw [List.all_map, List.all_eq_true]
+    intro t ht
+    simpa using hn t ht
+  simp only [singleShape, singleShapeK, h2, Bool.and_true]
+  simp [hm]
+
+theorem rtd_noNL_replicate (n : Nat) (t : Tok) (h : t.kind ≠ .newline) : NoNL (List.replicate n t) := by
+  intro x hx
+  rw [(List.mem_replicate.1 hx).2]; exact h
+
+theorem rtd_section_shape (cs : CharSpec) (name : Option (List Tok)) (p : SPad) (h : sectionOK cs name p = true) :
+    singleShape (spellSection name p) = true := by
+  simp only [sectionOK, Bool.and_eq_true] at h
+  obtain ⟨hp, hname⟩ := h
+  simp only [SPad.ok, Bool.and_eq_true] at hp
+  obtain ⟨⟨hpa, hpb⟩, hpc⟩ := hp
+  have hnn : NoNL (spellOptLeaf name) := by
+    cases name with
+    | none => intro t ht; simp [spellOptLeaf] at ht
+    | some n => exact rtd_leaf_noNL hname
+  have heq : (tk .eq ['=']).kind ≠ .newline := by simp [tk]
+  have hall : NoNL (spellSection name p) := by
+    unfold spellSection
+    refine rtd_noNL_append (rtd_noNL_append (rtd_noNL_replicate _ _ heq)
+      (rtd_noNL_append (rtd_noNL_append (rtd_pad_noNL hpa) hnn) (rtd_pad_noNL hpb))) ?_
+    split
+    · intro t ht; cases ht
+    · exact rtd_noNL_append (rtd_noNL_replicate _ _ heq) (rtd_pad_noNL hpc)
+  have e : spellSection name p = tk .eq ['='] :: (List.replicate p.n0 (tk .eq ['=']) ++ (p.a ++ spellOptLeaf name ++ p.b) ++
+      (if p.n1 = 0 then [] else List.replicate p.n1 (tk .eq ['=']) ++ p.c)) := by
+    simp [spellSection, List.replicate_succ]
+  rw [e] at hall ⊢
+  exact rtd_singleShape_intro _ _ (by simp [tk, kIsMarker]) hall
+
+theorem rtd_meta_shape (cs : CharSpec) (key value : List Tok) (p : MPad) (h : metaOK cs key value p = true) :
+    singleShape (spellMeta key value p) = true := by
+  simp only [metaOK, Bool.and_eq_true] at h
+  obtain ⟨⟨hp, hkey⟩, hval⟩ := h
+  simp only [MPad.ok, Bool.and_eq_true] at hp
+  obtain ⟨⟨⟨hpa, hpb⟩, hpc⟩, hpd⟩ := hp
+  have hone : ∀ k s, k ≠ TK.newline → NoNL [tk k s] := by
+    intro k s hk t ht; simp at ht; subst ht; simpa [tk] using hk
+  have hall : NoNL (spellMeta key value p) := by
+    unfold spellMeta
+    exact rtd_noNL_append (rtd_noNL_append (rtd_noNL_append (rtd_noNL_append (rtd_noNL_append (rtd_noNL_append
+      (rtd_noNL_append (hone _ _ (by simp)) (rtd_pad_noNL hpa)) (rtd_leaf_noNL hkey)) (rtd_pad_noNL hpb))
+      (hone _ _ (by simp))) (rtd_pad_noNL hpc)) (rtd_leaf_noNL hval)) (rtd_pad_noNL hpd)
+  have e : spellMeta key value p = tk .metaStart ['>', '>'] :: (p.a ++ key ++ p.b ++ [tk .colon [':']] ++ p.c ++ value ++ p.d) := by
+    simp [spellMeta]
+  rw [e] at hall ⊢
+  exact rtd_singleShape_intro _ _ (by simp [tk, kIsMarker]) hall
+
+theorem rtd_item_shape (cs : CharSpec) (ext : Ext) (d : DocItem) (h : d.ok cs ext = true) : blockShape d.spell = true := by
+  unfold blockShape
+  rw [Bool.or_eq_true]
+  cases d with
+  | step segs =>
+    simp only [DocItem.ok, Bool.and_eq_true] at h
+    exact Or.inr h.2
+  | sectionLine name p => exact Or.inl (rtd_section_shape cs name p h)
+  | metaLine k v p => exact Or.inl (rtd_meta_shape cs k v p h)
+
+/-- one block of a document through `parse_block`: its events are appended, the panic flag is kept -/
+theorem rtd_runBlock_item (cs : CharSpec) (ext : Ext) (d : DocItem) (h : d.ok cs ext = true) (ts : List Tok)
+    (hs : Spells ts d.spell) (hrun : RunAt (baseOff ts) ts) (evs0 : Array (Ev α)) (panic : Option String) :
+    ∃ (evs : List (Ev α)) (arr : Array (Ev α)), runBlock cs ext true ts evs0 panic = (arr, panic) ∧
+      arr.toList = evs0.toList ++ evs ∧ DocItemEvs cs d evs := by
+  cases d with
+  | step segs =>
+    simp only [DocItem.ok, Bool.and_eq_true] at h
+    obtain ⟨e, arr, h1, h2, h3⟩ := rtb_runBlock_step (α := α) segs cs ext true ts evs0 panic hs hrun h.1.1
+      (stepBlockOK_transfer hs h.1.2)
+    exact ⟨[.start .step] ++ e ++ [.stop .step], arr, h1, by rw [h2]; simp, e, rfl, h3⟩
+  | sectionLine name p =>
+    obtain ⟨ev, h1, h2⟩ := rtb_runBlock_section (α := α) name p cs ext true ts evs0 panic h hs hrun
+    exact ⟨[ev], _, h1, by simp, ev, rfl, h2⟩
+  | metaLine k v p =>
+    obtain ⟨ev, h1, h2⟩ := rtb_runBlock_meta (α := α) k v p cs ext ts evs0 panic h hs hrun
+    exact ⟨[ev], _, h1, by simp, ev, rfl, h2⟩
+
+/-- running the blocks of a document one after the other: the events of the blocks, concatenated -/
+theorem rtd_fold_items (cs : CharSpec) (ext : Ext) (doc : List (DocItem × List Tok)) (tds : List (List Tok × List Tok))
+    (hF : All2 (fun (td : List Tok × List Tok) (d : DocItem × List Tok) =>
+      Spells td.1 d.1.spell ∧ Spells td.2 d.2) tds doc)
+    (hok : ∀ d ∈ doc, d.1.ok cs ext = true) (hrun : ∀ td ∈ tds, RunAt (baseOff td.1) td.1) :
+    ∀ (evs0 : Array (Ev α)) (panic : Option String), ∃ (evss : List (List (Ev α))) (arr : Array (Ev α)),
+      (tds.map (·.1)).foldl (fun acc b => runBlock cs ext true b acc.1 acc.2) (evs0, panic) = (arr, panic) ∧
+      arr.toList = evs0.toList ++ evss.flatten ∧
+      All2 (fun (d : DocItem × List Tok) evs => DocItemEvs cs d.1 evs) doc evss := by
+  induction hF with
+  | nil => intro evs0 panic; exact ⟨[], evs0, rfl, by simp, All2.nil⟩
+  | @cons td d tds' doc' hd htl ih =>
+    intro evs0 panic
+    obtain ⟨evs, arr1, h1, h2, h3⟩ := rtd_runBlock_item cs ext d.1 (hok d (by simp)) td.1 hd.1
+      (hrun td (by simp)) evs0 panic
+    obtain ⟨evss, arr, g1, g2, g3⟩ := ih (fun x hx => hok x (by simp [hx])) (fun x hx => hrun x (by simp [hx])) arr1 panic
+    refine ⟨evs :: evss, arr, ?_, ?_, All2.cons h3 g3⟩
+    · simp only [List.map_cons, List.foldl_cons, h1]; exact g1
+    · rw [g2, h2]; simp
+
+/-- separators of a document: between blocks `sepOK`, after the last block `tailOK` -/
+def sepsOK : List (List Tok) → Bool
+  | [] => true
+  | [t] => tailOK t
+  | s :: x :: r => sepOK s && sepsOK (x :: r)
+
+theorem rtd_docOK_intro (ds : List (List Tok × List Tok)) (hb : ∀ d ∈ ds, blockShape d.1 = true)
+    (hs : sepsOK (ds.map (·.2)) = true) : docOK ds = true := by
+  induction ds with
+  | nil => rfl
+  | cons d r ih =>
+    cases r with
+    | nil =>
+      simp only [List.map_cons, List.map_nil, sepsOK] at hs
+      simp only [docOK, hb d (by simp), hs, Bool.and_self]
+    | cons x r' =>
+      simp only [List.map_cons, sepsOK, Bool.and_eq_true] at hs
+      simp only [docOK, hb d (by simp), hs.1, Bool.true_and]
+      exact ih (fun y hy => hb y (by simp [hy])) (by simpa using hs.2)
+
+theorem rtd_all2_blocks (tds : List (List Tok × List Tok)) (doc : List (DocItem × List Tok))
+    (hF : All2 (fun (td : List Tok × List Tok) (d : DocItem × List Tok) =>
+      Spells td.1 d.1.spell ∧ Spells td.2 d.2) tds doc) :
+    All2 (fun b (d : DocItem × List Tok) => Spells b d.1.spell) (tds.map (·.1)) doc := by
+  induction hF with
+  | nil => exact All2.nil
+  | cons hd _ ih => exact All2.cons hd.1 ih
+
+/-- the token list a document is printed from -/
+def docSpec (doc : List (DocItem × List Tok)) : List Tok := docToks (doc.map (fun d => (d.1.spell, d.2)))
+
+/-- Document level.  The characters of `pre ++ docSpec doc` — leading blank lines, then blocks
+    (steps of one or more lines, section lines, `>>` lines), each followed by its separator — when
+    the list is well spelled and the text has no front matter fence: the splitter cuts the lexer's
+    tokens into exactly one block per item, each spelling its item, and `pullEvents` returns the
+    concatenation of the items' events, no panic. -/
+theorem rtd_pullEvents_doc (cs : CharSpec) (ext : Ext) (pre : List Tok) (doc : List (DocItem × List Tok))
+    (hpre : blankLinesOK pre = true) (hok : ∀ d ∈ doc, d.1.ok cs ext = true)
+    (hseps : sepsOK (doc.map (·.2)) = true) (hw : WellSpelled cs (pre ++ docSpec doc))
+    (hfm : parseFrontmatter cs (render (pre ++ docSpec doc)) = none) :
+    ∃ (blocks : List (List Tok)) (evss : List (List (Ev α))) (arr : Array (Ev α)),
+      allBlocks ((lex cs (render (pre ++ docSpec doc))).length + 1) (lex cs (render (pre ++ docSpec doc))) = blocks ∧
+      All2 (fun b (d : DocItem × List Tok) => Spells b d.1.spell) blocks doc ∧
+      pullEvents (α := α) cs ext (render (pre ++ docSpec doc)) = (arr, none) ∧
+      arr.toList = evss.flatten ∧
+      All2 (fun (d : DocItem × List Tok) evs => DocItemEvs cs d.1 evs) doc evss := by
+  obtain ⟨hsp, hrun⟩ := rtin_lex_spells cs 0 (pre ++ docSpec doc) hw
+  generalize hts : lexFrom cs 0 (render (pre ++ docSpec doc)) = ts at hsp hrun
+  have hlex : lex cs (render (pre ++ docSpec doc)) = ts := hts
+  obtain ⟨tpre, tdoc, rfl, hsp1, hsp2⟩ := hsp.append_inv
+  obtain ⟨tds, rfl, hF⟩ := rtd_spells_doc (fun d : DocItem × List Tok => (d.1.spell, d.2)) doc tdoc hsp2
+  have hdoc : docOK tds = true := by
+    rw [rtd_docOK_transfer _ tds doc hF]
+    apply rtd_docOK_intro (doc.map (fun d : DocItem × List Tok => (d.1.spell, d.2)))
+    · intro d hd
+      obtain ⟨x, hx, rfl⟩ := List.mem_map.1 hd
+      exact rtd_item_shape cs ext x.1 (hok x hx)
+    · simpa [List.map_map, Function.comp_def] using hseps
+  have hbl : BlankLines tpre := rtd_blankLinesOK_facts tpre (by rw [rtd_blankLinesOK_transfer hsp1]; exact hpre)
+  have hall := rtd_allBlocks_doc tds hdoc tpre hbl
+  have hruns := rtd_doc_runs tds 0 tpre hrun
+  obtain ⟨evss, arr, g1, g2, g3⟩ := rtd_fold_items (α := α) cs ext doc tds hF hok hruns #[] none
+  refine ⟨tds.map (·.1), evss, arr, by rw [hlex]; exact hall, ?_, ?_, by simpa using g2, g3⟩
+  · exact rtd_all2_blocks tds doc hF
+  · unfold pullEvents
+    simp only [hfm, hlex, hall]
+    exact g1
+
 end Cook
